@@ -66,6 +66,28 @@ func mentions(e ast.Node, n string) bool {
 	return found
 }
 
+// mentionsDeep: e mentions n directly or through the definitions of the local variables it uses.
+func mentionsDeep(fd *ast.FuncDecl, e ast.Node, n string, depth int) bool {
+	if mentions(e, n) {
+		return true
+	}
+	if depth == 0 {
+		return false
+	}
+	found := false
+	ast.Inspect(e, func(x ast.Node) bool {
+		if id, ok := x.(*ast.Ident); ok && !found {
+			if def := defOf(fd, id.Name); def != nil && def != e {
+				if mentionsDeep(fd, def, n, depth-1) {
+					found = true
+				}
+			}
+		}
+		return !found
+	})
+	return found
+}
+
 // definition of a local variable: the RHS of its (first) := / = in fd.
 func defOf(fd *ast.FuncDecl, name string) ast.Expr {
 	var out ast.Expr
@@ -159,7 +181,7 @@ func main() {
 					if len(x.Lhs) == 1 && len(x.Rhs) == 1 {
 						if c, ok := isCallNamed(x.Rhs[0], "WeiToNative"); ok && len(c.Args) == 1 {
 							if def := defOf(fd, ident(c.Args[0])); def != nil {
-								if mc, ok := isCallNamed(def, "Mul"); ok && len(mc.Args) == 2 && mentions(mc.Args[0], gas) && ident(mc.Args[1]) == price && !mentions(mc.Args[0], price) {
+								if mc, ok := isCallNamed(def, "Mul"); ok && len(mc.Args) == 2 && mentionsDeep(fd, mc.Args[0], gas, 3) && mentionsDeep(fd, mc.Args[1], price, 3) && !mentionsDeep(fd, mc.Args[0], price, 3) && !mentionsDeep(fd, mc.Args[1], gas, 3) {
 									refundFormula = true
 									amountVar = ident(x.Lhs[0])
 								}
